@@ -6,7 +6,7 @@ import random
 import time
 import traceback
 from fractions import Fraction
-from .ints import IExpr, ICond, I, CTX, OutOfReach, NeedSplit, explore
+from .ints import IExpr, ICond, I, CTX, OutOfReach, NeedSplit, explore, run_forked
 from .reals import R, B, resolve_ints, variables, evaluate, NAN, show
 from . import prove
 from .prove import canonicalize, hyp_increasing, hyp_all, check_leaf, fn_apps
@@ -96,10 +96,13 @@ class LeafResult:
         self.seconds = seconds
 
 
+BASE_CONDS = [IExpr.sym(n) >= 1 for n in SIZE_NAMES]
+
+
 def reset_ctx():
     CTX.reset()
-    for n in SIZE_NAMES:
-        CTX.assume(IExpr.sym(n) >= 1)
+    for c in BASE_CONDS:
+        CTX.assume(c)
     T.WARNINGS.clear()
 
 
@@ -113,40 +116,42 @@ def run_symbolic(ob, grid, timeout_ms=20000, max_leaves=3000):
         with installed():
             w = SymWorld(grid)
             try:
-                S0 = ob.setup(w)
+                paths = run_forked(lambda: ob.setup(w))
             except NeedSplit:
-                S0 = None
-
-            def leaf_fn(part):
-                S = S0 if S0 is not None else ob.setup(w)
-                cl = ob.claims(w, S, w.P, part)
-                labels = [c[0] for c in cl]
-                exprs = [resolve_ints(B.of(c[1])) for c in cl]
-                exprs, groups = canonicalize(exprs)
-                apps = fn_apps(exprs)
-                hy = []
-                mesh_hyps(w, groups, apps, hy)
-                ob.hyps(w, groups, apps, hy)
-                hy = [resolve_ints(B.of(h)) for h in hy]
-                return labels, exprs, hy
-            leaves = []
-            for part in ob.parts(w):
-                leaves += explore((lambda part=part: leaf_fn(part)), base=tuple(ob.region(w)), max_leaves=max_leaves)
-            out['nleaves'] = len(leaves)
+                paths = [([], None)]
             worst = 'proved'
-            for conds, (labels, exprs, hy) in leaves:
-                for label, claim in zip(labels, exprs):
-                    t1 = time.time()
-                    st, be, model = check_leaf(claim, hy, timeout_ms=timeout_ms)
-                    dt = time.time() - t1
-                    out['backends'][be] = out['backends'].get(be, 0) + 1
-                    out['results'].append((label, st, be, round(dt, 4)))
-                    if st == 'refuted' and out['cex'] is None:
-                        out['cex'] = extract_cex(w, conds, model, label, claim)
-                        worst = 'refuted'
-                    elif st == 'unknown' and worst == 'proved':
-                        worst = 'unknown'
-                        out['error'] = 'solver: %s on %s' % (be, label)
+            for pathconds, S0 in paths:
+                def leaf_fn(part, S0=S0, pathconds=pathconds):
+                    S = S0 if S0 is not None else ob.setup(w)
+                    cl = ob.claims(w, S, w.P, part)
+                    labels = [c[0] for c in cl]
+                    exprs = [resolve_ints(B.of(c[1])) for c in cl]
+                    pcs = [resolve_ints(B.of(c)) for c in pathconds]
+                    allx, groups = canonicalize(exprs + pcs)
+                    exprs, pcs = allx[:len(exprs)], allx[len(exprs):]
+                    apps = fn_apps(exprs + pcs)
+                    hy = list(pcs)
+                    mesh_hyps(w, groups, apps, hy)
+                    ob.hyps(w, groups, apps, hy)
+                    hy = [resolve_ints(B.of(h)) for h in hy]
+                    return labels, exprs, hy
+                leaves = []
+                for part in ob.parts(w):
+                    leaves += explore((lambda part=part: leaf_fn(part)), base=tuple(ob.region(w)), max_leaves=max_leaves)
+                out['nleaves'] += len(leaves)
+                for conds, (labels, exprs, hy) in leaves:
+                    for label, claim in zip(labels, exprs):
+                        t1 = time.time()
+                        st, be, model = check_leaf(claim, hy, region_conds=tuple(BASE_CONDS) + tuple(conds), timeout_ms=timeout_ms)
+                        dt = time.time() - t1
+                        out['backends'][be] = out['backends'].get(be, 0) + 1
+                        out['results'].append((label, st, be, round(dt, 4)))
+                        if st == 'refuted' and out['cex'] is None:
+                            out['cex'] = extract_cex(w, conds, model, label, claim)
+                            worst = 'refuted'
+                        elif st == 'unknown' and worst == 'proved':
+                            worst = 'unknown'
+                            out['error'] = 'solver: %s on %s' % (be, label)
             out['status'] = worst
     except OutOfReach as e:
         out['status'] = 'out-of-reach'
